@@ -382,6 +382,9 @@ func (c *Cmt) produceBlock(args *BlockArgs) bool {
 		}
 	}
 	if !c.applyValidatorUpdates(b, b.Resp.ValidatorUpdates) {
+		if c.Halted == "" {
+			c.Halted = "validator updates of the last block are not acceptable to CometBFT"
+		}
 		return true
 	}
 	if u := b.Resp.ConsensusParamUpdates; u != nil {
